@@ -171,6 +171,9 @@ func loadFindings(path string) ([]finding, error) {
 // Finish evaluates floors, matches known findings, writes evidence and the replay file,
 // prints the verdict lines and returns the process exit code.
 func (r *Report) Finish() int {
+	if strings.TrimSpace(r.Explain) == "" {
+		r.Fatal("internal: evidence explanation missing for " + r.Prop)
+	}
 	for _, ru := range r.rules {
 		if ru.n < ru.Floor {
 			r.Fatalf("rule-vacuous: rule %s matched %d instances, floor (hand-confirmed on the pinned tree) is %d", ru.ID, ru.n, ru.Floor)
